@@ -559,9 +559,10 @@ Section Record12.
   Proof.
     unfold record_marshal, record_marshal_gen. destruct (content_enc hs c) as [ce|]; [|discriminate].
     destruct (N.ltb_spec 65535 (len ce)) as [|Hfit]; [discriminate|]. cbn [negb andb].
-    rewrite (N.mod_small (len ce) 65536) by lia.
+    rewrite (N.mod_small (len ce) 65536) by (clear - Hfit; lia).
     destruct (enc (c_header (length (h_cid h))) _) as [he|] eqn:Ehe; [|discriminate].
-    intro E. inversion E. exists he, ce. repeat split; try reflexivity; assumption.
+    intro E. inversion E. exists he, ce. split; [reflexivity|]. split; [reflexivity|].
+    split; [exact Hfit|exact Ehe].
   Qed.
 
   (* REFUTED for the encoder as coded before 9ff70b9 (F77): 65546 bytes of application data were
